@@ -29,7 +29,9 @@ UNSTEM = {v: k for k, v in STEM.items()}
 # the twins graph: three files with ONE base name in different packages (vm/n.py imports vm/p/n.py and vm/q/n.py)
 # the chain graph: every dotted path is a substring of the one listed before it, and the first one also ENDS with the second
 # (vm.p.vm.n1 / vm.n1 / vm.n): nothing may select a module by a partial match of its path, from either end
-GRAPH_STEM = {'Twins': {'a': 'n', 'b': 'p.n', 'c': 'q.n'}, 'Chain': {'a': 'p.vm.n1', 'b': 'n1', 'c': 'n'}}
+# the pair graph: the top module lies deep in a package tree - its dotted path alone is longer than a short read buffer
+GRAPH_STEM = {'Twins': {'a': 'n', 'b': 'p.n', 'c': 'q.n'}, 'Chain': {'a': 'p.vm.n1', 'b': 'n1', 'c': 'n'},
+	'Pair': {'b': 'systems.physics.collision.broadphase.spatial_hash_grid_builder_module', 'c': 'n'}}
 
 
 def stem_of(graph: str, m: str) -> str:
